@@ -113,8 +113,16 @@ func c08Perturb(p *synth.Project, i int, seed int64) string {
 		s.m.Params = append(s.m.Params, synth.Param{GoName: "dupa", Type: synth.Prim("string"), In: "query", Wire: "dup"}, synth.Param{GoName: "dupb", Type: synth.Prim("int"), In: "query", Wire: "dup"})
 		p.SetFeature("duplicate-wire-name")
 		return "duplicate-wire-name"
-	case 2: // undeclared scheme
-		s.m.Security = append(s.m.Security, synth.Security{Scheme: "ghostScheme", Scopes: []string{"x"}})
+	case 2: // undeclared scheme (every other time a declared name in another letter case)
+		ghost := "ghostScheme"
+		if len(p.Config.Schemes) > 0 && r.Intn(2) == 0 {
+			d := p.Config.Schemes[r.Intn(len(p.Config.Schemes))].Name
+			ghost = strings.ToUpper(d[:1]) + d[1:]
+			if ghost == d {
+				ghost = strings.ToLower(d)
+			}
+		}
+		s.m.Security = append(s.m.Security, synth.Security{Scheme: ghost, Scopes: []string{"x"}})
 		p.SetFeature("undeclared-scheme")
 		return "undeclared-scheme"
 	case 3: // missing leading slash on the controller
